@@ -79,7 +79,7 @@ fn dump(us: &[BigUint], is: &[BigInt]) -> String {
             out.push(b(h(&us[j]) == h(&us[k])));
         }
     }
-    out.push('|');
+    out.push(';');
     for j in 0..is.len() {
         for k in j + 1..is.len() {
             out.push(ord_c(is[j].cmp(&is[k])));
@@ -104,7 +104,7 @@ fn dump(us: &[BigUint], is: &[BigInt]) -> String {
             && a.to_bytes_le() == f.to_bytes_le()
             && a.to_u32_digits() == f.to_u32_digits()));
     }
-    out.push('|');
+    out.push(';');
     for a in is {
         if !canon_u(a.magnitude()) || ((a.sign() == Sign::NoSign) != a.magnitude().is_zero()) {
             out.push_str("!!!!");
@@ -153,6 +153,26 @@ fn panic_class(e: &(dyn std::any::Any + Send)) -> String {
     classify(&msg)
 }
 
+/// a `u128` from two 64-bit immediates `[lo, hi]` starting at index `at`
+fn u128_of(imm: &[u64], at: usize) -> Option<u128> {
+    Some((*imm.get(at)? as u128) | ((*imm.get(at + 1)? as u128) << 64))
+}
+
+/// an in-place operation with a documented failure (`-=` underflow, `/=` `%=` by zero): it is
+/// attempted in place; if it panics with the documented class the target is restored from a clone
+/// taken before the attempt (the register keeps its value); any other panic propagates
+fn attempt<T: Clone>(reg: &mut T, class: &str, f: impl FnOnce(&mut T)) {
+    let backup = reg.clone();
+    let r = panic::catch_unwind(AssertUnwindSafe(|| f(reg)));
+    if let Err(e) = r {
+        if panic_class(&*e) == class {
+            *reg = backup;
+        } else {
+            panic::resume_unwind(e);
+        }
+    }
+}
+
 fn hist(a: &[&str]) -> Option<String> {
     let nu: usize = a.first()?.parse().ok()?;
     let ni: usize = a.get(1)?.parse().ok()?;
@@ -183,23 +203,23 @@ fn hist(a: &[&str]) -> Option<String> {
                 let src = us[s].clone();
                 match f[1] {
                     "add" => us[d] += &src,
-                    "sub" => {
-                        // documented failure (a < b): the operation is attempted in place; if it
-                        // panics with the documented class the target is restored from a clone
-                        let backup = us[d].clone();
-                        let r = panic::catch_unwind(AssertUnwindSafe(|| us[d] -= &src));
-                        if let Err(e) = r {
-                            if panic_class(&*e) == "underflow" {
-                                us[d] = backup;
-                            } else {
-                                panic::resume_unwind(e);
-                            }
-                        }
-                    }
+                    "sub" => attempt(&mut us[d], "underflow", |x| *x -= &src),
                     "zero" => us[d].set_zero(),
                     "one" => us[d].set_one(),
                     "clone" => us[d].clone_from(&src),
                     "asg" => us[d].assign_from_slice(&words(&imm)?),
+                    "mul" => us[d] *= &src,
+                    "mul32" => us[d] *= u32::try_from(*imm.first()?).ok()?,
+                    "mul64" => us[d] *= *imm.first()?,
+                    "mul128" => us[d] *= u128_of(&imm, 0)?,
+                    "div" => attempt(&mut us[d], "divzero", |x| *x /= &src),
+                    "rem" => attempt(&mut us[d], "divzero", |x| *x %= &src),
+                    "shl" => us[d] <<= usize::try_from(*imm.first()?).ok()?,
+                    "shr" => us[d] >>= usize::try_from(*imm.first()?).ok()?,
+                    "and" => us[d] &= &src,
+                    "or" => us[d] |= &src,
+                    "xor" => us[d] ^= &src,
+                    "setbit" => us[d].set_bit(*imm.first()?, *imm.get(1)? != 0),
                     _ => return None,
                 }
             }
@@ -222,6 +242,21 @@ fn hist(a: &[&str]) -> Option<String> {
                         let v = std::mem::take(&mut is[d]);
                         is[d] = -v;
                     }
+                    "mul" => is[d] *= &src,
+                    "mul128" => is[d] *= u128_of(&imm, 0)?,
+                    "muli128" => {
+                        let m = u128_of(&imm, 1)?;
+                        let v: i128 = if *imm.first()? == 1 { m.wrapping_neg() as i128 } else { m as i128 };
+                        is[d] *= v
+                    }
+                    "div" => attempt(&mut is[d], "divzero", |x| *x /= &src),
+                    "rem" => attempt(&mut is[d], "divzero", |x| *x %= &src),
+                    "shl" => is[d] <<= usize::try_from(*imm.first()?).ok()?,
+                    "shr" => is[d] >>= usize::try_from(*imm.first()?).ok()?,
+                    "and" => is[d] &= &src,
+                    "or" => is[d] |= &src,
+                    "xor" => is[d] ^= &src,
+                    "setbit" => is[d].set_bit(*imm.first()?, *imm.get(1)? != 0),
                     _ => return None,
                 }
             }
